@@ -59,6 +59,14 @@ CHECKS.update({
             "DESIGN.md §4 C11"),
 })
 
+CHECKS.update({
+    "C14": ("model_checking", "E2",
+            "bounded-exhaustive enumeration of every ban/unban/use/restart/crash-restart/gossip-to-peer operation sequence against real brokers with a real state directory (every history is a state; no merging)",
+            "Every sequence over {ban, unban, use} to depth 6 (quick) / 8 (thorough) and over {ban, unban, use, restart, crash, useB2, sync} to depth 3 / 5 is executed: ban/unban are real emitter/keyban/ requests with the master key, use is a real SUBSCRIBE presenting the key, restart closes and reopens the broker on the same directory, crash abandons it un-closed and opens a second one, sync feeds the exact broadcast payloads to a second broker; every use must agree with the last acknowledged ban request.",
+            "cache/tombstone TTLs (60 s / 6 h) never elapse in a run; kill is modelled by abandoning the process state, power loss out of scope.",
+            "DESIGN.md §4 C14"),
+})
+
 NOT_YET = {}
 
 
